@@ -131,6 +131,32 @@ def one(cases, rng, tier, d, rep, dtname):
             box, impl = boxed(lambda xz=xz: xz.norm(True))
             cases.append(Case(None, impl, chk_val(box, lambda dxz=dxz: (dxz * dxz.conj()).sum(), exact=False, tol=1e-5 if dtname in ("f32", "c64") else 1e-12),
                               "norm/qr-squared-zero-pivots/%s/%s" % (nm, tag), True, desc="norm(True) of %s N=%s" % (nm, N)))
+    # --- norm of operands that vanish only through cancellation (x - x, (x + y) - y - x), tracked and untracked: a finite number at roundoff level
+    if d >= 2 and dtname in ("f64", "c128"):
+        g_ = tn.Generator().manual_seed(rng.randrange(1 << 30))
+        xr = torchtt.TT([tn.randn(c.shape, generator=g_, dtype=tn.float64).to(dt) for c in x.cores])
+        yr = torchtt.TT([tn.randn(c.shape, generator=g_, dtype=tn.float64).to(dt) for c in x.cores])
+        scale_ = float(xr.norm())
+        for nm, mk_ in (("x-x", lambda xr=xr: xr - xr), ("x+y-y-x", lambda xr=xr, yr_=yr: (xr + yr_) - yr_ - xr), ("2x-x-x", lambda xr=xr: 2 * xr - xr - xr)):
+            for tracked in (True, False):
+                boxc = {}
+
+                def implc(mk_=mk_, tracked=tracked, boxc=boxc):
+                    z = mk_()
+                    if tracked:
+                        torchtt.grad.watch(z)
+                    v = z.norm()
+                    boxc["v"] = float(v.detach().real) if tn.is_tensor(v) else float(v)
+                    return "ok"
+
+                def orcc(boxc=boxc, scale_=scale_, nm=nm, tracked=tracked):
+                    v = boxc.get("v")
+                    if v is None:
+                        return "norm raised"
+                    if not (v == v) or v < 0 or v > 1e-10 * max(scale_, 1.0):
+                        return "norm() of %s (%s) = %r, the dense norm is at roundoff level (<= %.3g)" % (nm, "tracked" if tracked else "untracked", v, 1e-10 * max(scale_, 1.0))
+                    return None
+                cases.append(Case(None, implc, orcc, "norm/cancellation/%s/%s/%s" % (nm, "tracked" if tracked else "untracked", tag), True, desc="norm of %s" % nm))
     # --- operators: sum, norm, bilinear form
     if d <= 4:
         M = rand_modes(rng, d, 1, 3)
